@@ -1,19 +1,33 @@
-// Package vtls stands in for "crypto/tls" in package remote under the in-memory transport.
-// TLS is not exercised by any listed property (assumption A5).
+// Package vtls stands in for "crypto/tls" in package remote under the in-memory transport: a
+// pass-through over vnet (no encryption, no handshake - the properties say nothing about either)
+// that keeps the SHAPE of the real API, because the shape matters: tls.Dial returns a *Conn, and a
+// failed dial returns a nil *Conn which, stored in a net.Conn variable, is not == nil (D28).
 package vtls
 
 import (
 	"crypto/tls"
-	"errors"
 	"net"
+
+	"github.com/anthdm/hollywood/zzverif/vnet"
 )
 
 type Config = tls.Config
 
-func Dial(network, addr string, config *Config) (net.Conn, error) {
-	return nil, errors.New("vtls: TLS is not modelled by the in-memory transport")
+// Conn wraps the in-memory connection. Methods are promoted from the embedded net.Conn: calling
+// one on a nil *Conn panics, as with the real *tls.Conn.
+type Conn struct{ net.Conn }
+
+// NetConn returns the wrapped connection (as the real tls.Conn does).
+func (c *Conn) NetConn() net.Conn { return c.Conn }
+
+func Dial(network, addr string, config *Config) (*Conn, error) {
+	c, err := vnet.Dial(network, addr)
+	if err != nil {
+		return nil, err
+	}
+	return &Conn{c}, nil
 }
 
 func Listen(network, laddr string, config *Config) (net.Listener, error) {
-	return nil, errors.New("vtls: TLS is not modelled by the in-memory transport")
+	return vnet.Listen(network, laddr)
 }
